@@ -546,6 +546,22 @@ func (w *World) knownCycleCause(node *networkv1beta1.Node) string {
 	// With a reserve to keep (min > 0) and interfaces whose idle IPv4 and IPv6 counts differ, the
 	// two never agree.
 	if w.cfg.v4() && w.cfg.v6() && w.cfg.MinPool > 0 {
+		// the unreleasable idle primary addresses alone fill the band: every collection finds
+		// idle IPv4 > max and, unable to remove a primary, removes an IPv6 address instead
+		primIdle := 0
+		for _, ni := range node.Status.NetworkInterfaces {
+			if ni.Status != aliyunClient.ENIStatusInUse || ni.NetworkInterfaceTrafficMode == networkv1beta1.NetworkInterfaceTrafficModeHighPerformance {
+				continue
+			}
+			for _, ip := range ni.IPv4 {
+				if ip != nil && ip.Primary && ip.PodID == "" && ip.Status == networkv1beta1.IPStatusValid {
+					primIdle++
+				}
+			}
+		}
+		if primIdle >= w.cfg.MaxPool {
+			return "@dual-stack-idle-imbalance"
+		}
 		for _, ni := range node.Status.NetworkInterfaces {
 			if ni.Status != aliyunClient.ENIStatusInUse {
 				continue
